@@ -59,7 +59,7 @@ def plan_for(tier: str, seed: int, i: int) -> dict:
     if rng.random() < 0.12:
         op = rng.choice(["get_usmstat", "walk_usmstats"])   # the agent's own usmStats counters read as ordinary data
     return {"prop": ID, "proto": proto, "engine_id": eng, "op": op, "payload": payload, "pwlen": pwlen, "context_name": ctx,
-            "ctx_echo": rng.random() < 0.3}
+            "ctx_echo": rng.random() < 0.3, "ctx_other": rng.random() < 0.15}
 
 
 def simplify(plan: dict):
@@ -99,6 +99,8 @@ def execute(plan: dict) -> dict:
             mib[usm + (k, 0)] = ("c32", 10 + k)
     agent = w.add_agent(agent_for(proto, mib, engine_id=plan["engine_id"], boots=7, time0=4000))
     agent.report_ctx_echo = bool(plan.get("ctx_echo"))
+    if plan.get("ctx_other"):
+        agent.report_ctx_other = b"\x80\x00\x1f\x88\x04proxied-context"
     client = w.client(proto, timeout=1, retries=1, context_name=plan["context_name"])
     op = {"get": {"op": "get", "oid": o1}, "multiget": {"op": "multiget", "oids": [o1, o2, o3]},
           "getnext": {"op": "getnext", "oid": BASE + (1, 1)},
